@@ -167,6 +167,11 @@ def main(tier, write_baseline=False):
         code_cells = [(f, s, e, None) for f in ("class", "pydantic", "function", "argparse") for s in ("rest", "google", "numpydoc") for e in (True, False)]
         groups.append((code_cells + [("docstring", s, e, None) for s in ("google", "numpydoc") for e in (True, False)], legal))
         groups.append(([("docstring", "rest", e, None) for e in (True, False)], legal + nonsuffix))
+        # descriptions that BEGIN with the default announce (nothing in front of "Defaults to"): the clause is cut out at
+        # position 0 (the defect repaired by the "fix: ... begins with 'Defaults to'" commit made the text double every round)
+        announce_first = [domain.make_ir(((t_, domain.ABSENT, d_),)) for t_ in ("int", "str", "Optional[int]")
+                          for d_ in ("Defaults to 5. More about the {name}", "Defaults to 5", "(default: 5) for the {name}", "defaults to 5, usually")]
+        groups.append(([("docstring", s, e, None) for s in ("rest", "google", "numpydoc") for e in (True, False)] + [("function", "rest", e, None) for e in (True, False)], announce_first))
         jpool = domain.param_pool(JSON_TYPES, docs=DOCS[:4] + [""])
         groups.append(([("json_schema", "rest", True, None)], list(domain.irs(1, jpool)) + list(domain.irs(2, jpool, sample=100, seed=run.seed))))
         spool = domain.param_pool(SQL_TYPES, docs=["the {name}", "ends in an ellipsis etc...", "[PK] the key", ""])
